@@ -35,6 +35,9 @@ type Violation struct {
 	Digest  string
 	Log     []string
 	Crash   *Crash
+	// RacySites is the set of racy accesses that were scheduling points when the schedule was recorded (a replay
+	// in another process must use the same set)
+	RacySites []string
 }
 
 // Stats summarise an exploration.
@@ -49,6 +52,7 @@ type Stats struct {
 	MaxDepth      int
 	Violations    []Violation
 	SampleChoices [][]int
+	RacyRounds    int // how often the search was repeated because new racing accesses had been found
 }
 
 func (s *Stats) Merge(o *Stats) {
@@ -128,8 +132,28 @@ func (r *ReplayStrategy) Pick(idx int, p *Point) int {
 // a digest of the observations (for replay determinism) and a failure, if any.
 type Judge func(e *Exec) (outcome string, digest string, fail *Failure)
 
-// Explore runs body under every schedule within opt and judges each complete execution.
+// Explore runs body under every schedule within opt and judges each complete execution. When the executions
+// found accesses racing that were not scheduling points yet (sched.RacyPending) the search is repeated with them
+// (at most 4 rounds); the statistics add up, violations of every round are reported.
 func Explore(opt Options, body func(), judge Judge) *Stats {
+	MergeRacyPending()
+	st := exploreOnce(opt, body, judge)
+	for round := 0; round < 4 && len(st.Violations) == 0 && st.Exhaustive && MergeRacyPending(); round++ {
+		st2 := exploreOnce(opt, body, judge)
+		st2.Execs += st.Execs
+		st2.Pruned += st.Pruned
+		st2.Transitions += st.Transitions
+		st2.States += st.States
+		st2.RacyRounds = st.RacyRounds + 1
+		for k, v := range st.Outcomes {
+			st2.Outcomes[k] += v
+		}
+		st = st2
+	}
+	return st
+}
+
+func exploreOnce(opt Options, body func(), judge Judge) *Stats {
 	st := &Stats{Exhaustive: true, Outcomes: map[string]int64{}}
 	BoundAll, NoEarlyClock, HoldBack, HoldLagNs = opt.BoundAll, opt.NoEarlyClock, opt.HoldBack, opt.HoldLagNs
 	defer func() { BoundAll, NoEarlyClock, HoldBack, HoldLagNs = false, false, false, 0 }()
@@ -167,10 +191,10 @@ func Explore(opt Options, body func(), judge Judge) *Stats {
 		} else {
 			if e.Status() == StepLimit {
 				if opt.HorizonClause != "" {
-					st.Violations = append(st.Violations, Violation{Failure: Failure{Clause: opt.HorizonClause, Msg: fmt.Sprintf("the execution is still running after %d steps (threads or timers never come to rest)", opt.MaxSteps), Sig: "no-termination-within-horizon"}, Choices: choicesOf(e.Points)})
+					st.Violations = append(st.Violations, Violation{Failure: Failure{Clause: opt.HorizonClause, Msg: fmt.Sprintf("the execution is still running after %d steps (threads or timers never come to rest)", opt.MaxSteps), Sig: "no-termination-within-horizon"}, Choices: choicesOf(e.Points), RacySites: ActiveRacySites()})
 					break
 				}
-				st.Violations = append(st.Violations, Violation{Failure: Failure{Clause: "engine", Msg: "step horizon hit", Sig: "steplimit"}, Choices: choicesOf(e.Points)})
+				st.Violations = append(st.Violations, Violation{Failure: Failure{Clause: "engine", Msg: "step horizon hit", Sig: "steplimit"}, Choices: choicesOf(e.Points), RacySites: ActiveRacySites()})
 				st.Exhaustive = false
 				st.CapHit = "step horizon"
 				break
@@ -182,7 +206,7 @@ func Explore(opt Options, body func(), judge Judge) *Stats {
 			}
 			if fail != nil && !sigSeen[fail.Sig] {
 				sigSeen[fail.Sig] = true
-				v := Violation{Failure: *fail, Choices: choicesOf(e.Points), Digest: digest, Crash: e.Crash}
+				v := Violation{Failure: *fail, Choices: choicesOf(e.Points), Digest: digest, Crash: e.Crash, RacySites: ActiveRacySites()}
 				// confirm by replaying the schedule twice, with a step log
 				ok := true
 				for k := 0; k < 2; k++ {
